@@ -408,6 +408,24 @@ func runCheck(p *PropDef, tier string, seed int64) int {
 				return &hr
 			}
 		}
+		// a property-wide harness ("*") stands in for every function of that property
+		for _, h := range cc.harnesses {
+			if h.Func != "*" {
+				continue
+			}
+			for _, pid := range h.Props {
+				if pid == p.ID {
+					if hr, ok := harnessRuns["*"]; ok {
+						harnessRuns[fn] = hr
+						return hr
+					}
+					hr := runHarness(h, tier, seed, "")
+					harnessRuns["*"] = &hr
+					harnessRuns[fn] = &hr
+					return &hr
+				}
+			}
+		}
 		harnessRuns[fn] = nil
 		return nil
 	}
